@@ -211,12 +211,12 @@ Print Assumptions C17_remove_not_wf_refuted.
 Theorem C17_bridge_longest_path : forall w n c (st : lp_state) lc ln,
   lookup c (fst st) = Some lc -> lookup n (fst st) = Some ln ->
   lp_relax w n (Ok st) c =
-  if lp_test lc ln (w c) then Ok (set_key c (lp_new ln (w c)) (fst st), set_key c n (snd st)) else Ok st.
+  if Src_Graph.lp_test lc ln (w c) then Ok (set_key c (Src_Graph.lp_new ln (w c)) (fst st), set_key c n (snd st)) else Ok st.
 Proof. exact bridge_lp_relax. Qed.
 Print Assumptions C17_bridge_longest_path.
 Theorem C17_bridge_backtrack : forall f w pred cur cum path,
   lp_back (S f) w pred cur cum path =
-  if lp_continue cum then match lookup cur pred with
+  if Src_Graph.lp_continue cum then match lookup cur pred with
                           | None => Err E_KEY
                           | Some p => lp_back f w pred p (cum - w p) (path ++ [p])
                           end
@@ -224,13 +224,13 @@ Theorem C17_bridge_backtrack : forall f w pred cur cum path,
 Proof. exact bridge_lp_back. Qed.
 Print Assumptions C17_bridge_backtrack.
 Theorem C17_bridge_default_weight : forall g n,
-  default_weight g n = default_w (match parents_of g n with [] => true | _ => false end).
+  default_weight g n = Src_Graph.default_w (match parents_of g n with [] => true | _ => false end).
 Proof. exact bridge_default_weight. Qed.
 Print Assumptions C17_bridge_default_weight.
 Theorem C17_bridge_are_dependent : forall g n1 n2 d1 d2,
-  get_node_depth g n1 depth_default_is_max = Ok d1 -> get_node_depth g n2 depth_default_is_max = Ok d2 ->
+  get_node_depth g n1 Src_Graph.depth_default_is_max = Ok d1 -> get_node_depth g n2 Src_Graph.depth_default_is_max = Ok d2 ->
   are_dependent g n1 n2 =
-  match dep_branch d1 d2 with
+  match Src_Graph.dep_branch d1 d2 with
   | 0 => Ok false
   | 21 => check_dependency g n2 n1
   | _ => check_dependency g n1 n2
@@ -239,17 +239,17 @@ Proof. exact bridge_are_dependent. Qed.
 Print Assumptions C17_bridge_are_dependent.
 Theorem C17_bridge_depth : forall g mx t x rest d ps, get_parents g x = Ok ps ->
   depth_loop g mx t (x :: rest) d =
-  let d' := if depth_has_parents (Z.of_nat (length ps))
-            then set_key x (depth_step (fold_mm mx (dget d (hd 0 ps)) (map (dget d) (tl ps)))) d else d in
+  let d' := if Src_Graph.depth_has_parents (Z.of_nat (length ps))
+            then set_key x (Src_Graph.depth_step (fold_mm mx (dget d (hd 0 ps)) (map (dget d) (tl ps)))) d else d in
   if t =? x then Ok (dget d' t) else depth_loop g mx t rest d'.
 Proof. exact bridge_depth_step. Qed.
 Print Assumptions C17_bridge_depth.
-Theorem C17_bridge_depth_default : forall d n, lookup n d = None -> dget d n = depth_source.
+Theorem C17_bridge_depth_default : forall d n, lookup n d = None -> dget d n = Src_Graph.depth_source.
 Proof. exact bridge_depth_default. Qed.
 Print Assumptions C17_bridge_depth_default.
 Theorem C17_bridge_visit : forall f g n (s : tstate) m, lookup n (fst s) = Some m ->
   visit (S f) g n s =
-  match visit_dispatch (mark_code m) with
+  match Src_Graph.visit_dispatch (mark_code m) with
   | 0 => Ok s
   | 1 => Err E_RUNTIME
   | _ => bind (get_children g n) (fun cs =>
@@ -259,6 +259,6 @@ Theorem C17_bridge_visit : forall f g n (s : tstate) m, lookup n (fst s) = Some 
 Proof. exact bridge_visit. Qed.
 Print Assumptions C17_bridge_visit.
 Theorem C17_bridge_structure :
-  topo_reversed = true /\ dfs_pops_right_and_skips_visited = true /\ bfs_pops_left_and_needs_all_parents = true.
+  Src_Graph.topo_reversed = true /\ Src_Graph.dfs_pops_right_and_skips_visited = true /\ Src_Graph.bfs_pops_left_and_needs_all_parents = true.
 Proof. exact bridge_structure. Qed.
 Print Assumptions C17_bridge_structure.
